@@ -156,6 +156,8 @@ func init() {
 		}
 		r := o.res()
 		queryStability(o, r)
+		// the caller's buffer is the caller's: neither parsing nor querying may write into it
+		r["in_unchanged"] = bytes.Equal(in, a.Bytes("in"))
 		addSha(r, a)
 		return r
 	})
@@ -172,6 +174,7 @@ func init() {
 			o := rd(in, a)
 			r := o.res()
 			queryStability(o, r)
+			r["in_unchanged"] = bytes.Equal(in, a.Bytes("in"))
 			r["fn"] = fn
 			results = append(results, r)
 		}
